@@ -154,6 +154,12 @@ impl ToLatex for CompoundVariable {
     }
 }
 
+/// The `underscore_literal` of the grammar: underscores followed by letters or digits.
+fn is_underscore_literal(s: &str) -> bool {
+    let rest = s.trim_start_matches('_');
+    rest.len() < s.len() && !rest.is_empty() && rest.chars().all(char::is_alphanumeric)
+}
+
 impl fmt::Display for CompoundVariable {
     fn fmt(&self, f: &mut fmt::Formatter<'_>) -> fmt::Result {
         let indexes = self
@@ -164,8 +170,9 @@ impl fmt::Display for CompoundVariable {
                     Primitive::Number(n) => n.to_string(),
                     Primitive::PositiveInteger(n) => n.to_string(),
                     Primitive::Integer(n) => n.to_string(),
-                    //literal name fragments such as the _2 in set_A__2
-                    Primitive::String(s) => s.clone(),
+                    //literal name fragments such as the _2 in set_A__2; any other string is
+                    //written as the quoted expression it came from (a bare A would be read as a name)
+                    Primitive::String(s) if is_underscore_literal(s) => s.clone(),
                     _ => format!("{{{}}}", i),
                 },
                 PreExp::Variable(name) => name.value().clone(),
